@@ -1,7 +1,7 @@
 (** Extraction of the thrift engine (ExtrOcamlBasic only; numbers stay inductive). *)
 Require Extraction.
 Require Import ExtrOcamlBasic.
-From Carquet Require Import Base.Res Thrift.ThriftSpec Thrift.ThriftModel Thrift.ParquetMetaDesc Thrift.ParquetMetaModel.
+From Carquet Require Import Base.Res Thrift.ThriftSpec Thrift.ThriftModel Thrift.ParquetMetaDesc Thrift.ParquetMetaModel Thrift.ParquetMetaSem.
 Extraction Language OCaml.
 Extraction "extracted/thrift_ext.ml"
   ThriftModel.varint_bytes ThriftModel.zigzag_encode64 ThriftModel.zigzag_decode64
@@ -15,4 +15,7 @@ Extraction "extracted/thrift_ext.ml"
   ThriftModel.read_list_begin ThriftModel.read_map_begin ThriftModel.thrift_skip ThriftModel.with_lfid
   ParquetMetaModel.write_file_metadata ParquetMetaModel.write_page_header
   ParquetMetaModel.parse_file_metadata ParquetMetaModel.parse_page_header
-  ThriftSpec.spec_decode ThriftSpec.spec_encode.
+  ParquetMetaSem.to_tval_file_metadata ParquetMetaSem.to_tval_page_header
+  ParquetMetaSem.norm_file_metadata ParquetMetaSem.norm_page_header
+  ParquetMetaSem.wfb_file_metadata ParquetMetaSem.wfb_page_header
+  ThriftModel.e_out ThriftSpec.spec_decode ThriftSpec.spec_encode.
